@@ -461,11 +461,15 @@ Definition bump (g : Z) (mid : string) : Z :=
   | Some n => if Z.gtb n g then n else g
   | None => g
   end.
+(* the mids of one remote description: Atoi(getMidValue(media)), "" does not parse *)
 Definition bump_remote (g : Z) (d : option rdesc) : Z :=
   match d with
-  | Some d => fold_left (fun g r => if String.eqb (r_mid r) "" then g else bump g (r_mid r)) (r_secs d) g
+  | Some d => fold_left (fun g r => bump g (r_mid r)) (r_secs d) g
   | None => g
   end.
+(* first pass over the transceivers: the mids that are already set *)
+Definition bump_trs (g : Z) (l : list tr) : Z := fold_left (fun g t => bump g (t_mid t)) l g.
+(* second pass: the transceivers without mid are numbered greaterMid+1, ... *)
 Fixpoint alloc_mids (g : Z) (l : list tr) : Z * list tr :=
   match l with
   | [] => (g, [])
@@ -475,7 +479,7 @@ Fixpoint alloc_mids (g : Z) (l : list tr) : Z * list tr :=
         let '(g2, rest') := alloc_mids g' rest in
         (g2, with_mid t (itoa g') :: rest')
       else
-        let '(g2, rest') := alloc_mids (bump g (t_mid t)) rest in
+        let '(g2, rest') := alloc_mids g rest in
         (g2, t :: rest')
   end.
 
@@ -484,10 +488,13 @@ Definition set_gmid_trs (s : st) (g : Z) (l : list tr) : st :=
      pend_remote := pend_remote s;
      neg_audio := neg_audio s; neg_video := neg_video s;
      last_offer := last_offer s; last_answer := last_answer s |}.
+(* greaterMid after CreateOffer has looked at the current and the pending remote
+   description and at every transceiver that has a mid *)
+Definition offer_start (s : st) : Z :=
+  bump_trs (bump_remote (bump_remote (gmid s) (cur_remote s)) (pend_remote s)) (trs s).
 (* the state after CreateOffer's mid allocation *)
 Definition offer_alloc (s : st) : st :=
-  let g1 := bump_remote (gmid s) (cur_remote s) in
-  let '(g2, l) := alloc_mids g1 (trs s) in
+  let '(g2, l) := alloc_mids (offer_start s) (trs s) in
   set_gmid_trs s g2 l.
 
 (* the remote description CreateOffer generates against: none when there is no
